@@ -18,7 +18,7 @@ NOTES = {
 }
 
 def base_of(sid):
-    if "-r6" in sid:
+    if "-r6" in sid or "-r7" in sid:
         return "3b86fcc"
     if "-r4" in sid or "-r5" in sid:
         return "19b16c8"
@@ -53,7 +53,7 @@ def main():
             "id": sid, "property": prop, "summary": title, "files_changed": files,
             "needs_to_manifest": section(readme, r"What is needed") or section(readme, r"(When|Conditions|Trigger)"),
             "breaks": section(readme, r"Which part of"),
-            "origin": "written by a fresh sub-agent (round %s) that was given only the text of %s and a scratch worktree of /repo at commit %s" % ("3" if "-r3" in sid else "2" if "-r2" in sid else "1", prop, base_of(sid)),
+            "origin": "written by a fresh sub-agent (round %s) that was given only the text of %s and a scratch worktree of /repo at commit %s" % ((re.search(r"-r(\d+)m", sid) or [None, "1"])[1], prop, base_of(sid)),
             "base_commit": base_of(sid),
             "confirmed_by_me": None if confirm is None else {
                 "how": "tools/confirm_seed.sh in scratch worktree /tmp/wt-confirm at the seed's base commit: demo test without the change, with the change, then cargo test --workspace --no-fail-fast --offline with the change",
